@@ -80,6 +80,7 @@ def run(ctx):
             orc = re.search(r" oracle=(\S+)", i).group(1)
             serde = re.search(r" serde\[(.*?)\]", i).group(1)
             desp = re.search(r" despan=(\S+)", i).group(1)
+            keysr = (re.search(r" keys=(\S+)", i) or [None, "same"])[1]
             if orc != "ok":
                 bad = f"span oracle: {orc[:200]} (bounds / character boundaries / child inside parent / re-parsing the slice gives the same key or value)"
             elif serde.startswith("SERDE-ERR"):
@@ -90,6 +91,8 @@ def run(ctx):
                 bad = f"spans delivered through serde differ from the document's: {serde[:200]}"
             elif desp != "none":
                 bad = "a span survives into_mut()"
+            elif keysr != "same":
+                bad = f"map keys read as Newtype(String) / Spanned<Newtype(String)> / Newtype(Spanned<String>) / Spanned<String> disagree: {keysr[:300]}"
             if any(x >= 0x80 for x in d):
                 nontriv.add(ln)
         if bad:
@@ -105,7 +108,7 @@ def run(ctx):
             ctx.violation(f"obligation no longer checks: {n}", {"unchecked": n, "detail": d[:1500], "searched": f"{len(docs)} documents"}, concrete=False)
     ctx.cov.update({
         "evaluations": len(docs), "distinct_nontrivial": len(nontriv),
-        "rule": "generated valid documents (multi-byte characters in keys, strings and comments, BOM, CRLF, comments and whitespace around every token, nested containers, dotted keys, header / array-of-tables layouts) + toml-test valid files + hand-written multi-byte layouts; oracles on the implementation: bounds, character boundaries, child inside parent, slice re-parses to the same key / value, Spanned<T> route equal value and equal spans (a recursive Spanned tree), no span after into_mut. non-trivial = document contains a non-ASCII byte",
+        "rule": "generated valid documents (multi-byte characters in keys, strings and comments, BOM, CRLF, comments and whitespace around every token, nested containers, dotted keys, header / array-of-tables layouts) + toml-test valid files + hand-written multi-byte layouts; oracles on the implementation: bounds, character boundaries, child inside parent, slice re-parses to the same key / value, Spanned<T> route equal value and equal spans (a recursive Spanned tree), the four key kinds Newtype(String) / Spanned<Newtype(String)> / Newtype(Spanned<String>) / Spanned<String> agree on success, keys and ranges, no span after into_mut. non-trivial = document contains a non-ASCII byte",
         "samples": [docs[0].decode()[:150], docs[-1].decode()[:150]], "spans_checked": nspans,
         "traces_validated_against_impl": len(docs), "disagreements": ndis,
     })
